@@ -220,8 +220,14 @@ type C12Op struct {
 
 func c12GenCfg(r *Rand) C12Cfg {
 	c := C12Cfg{}
-	c.Size = []int{1, 2, 3, 3, 4, 4, 6, 0}[r.Intn(8)]
-	c.MaxTxsBytes = []int64{5, 10, 16, 30, 1000, 1000, 0}[r.Intn(7)]
+	c.Size = []int{1, 2, 3, 4, 4, 6, 6, 8}[r.Intn(8)]
+	if r.Chance(3) {
+		c.Size = 0
+	}
+	c.MaxTxsBytes = []int64{10, 16, 30, 1000, 1000, 1000}[r.Intn(6)]
+	if r.Chance(6) {
+		c.MaxTxsBytes = []int64{0, 5}[r.Intn(2)]
+	}
 	c.MaxTxBytes = []int{4, 8, 1000, 1000}[r.Intn(4)]
 	c.CacheSize = []int{0, 1, 2, 3, 5, 100, 100}[r.Intn(7)]
 	c.Recheck = r.Chance(70)
@@ -395,6 +401,11 @@ func c12Directed(which int, v1 bool) (C12Cfg, [][]byte, [][]C12Verdict, []C12Op,
 		c.MaxTxsBytes = 3
 		return c, al, okTable(nil), []C12Op{chk(0), chk(2), chk(1), chk(3), {Kind: "reapbg", B: 3, G: -1}, {Kind: "reapbg", B: 4, G: -1},
 			{Kind: "reapbg", B: -1, G: 1}, {Kind: "reapbg", B: -1, G: 2}, {Kind: "reapbg", B: 0, G: 0}}, "directed-limits"
+	case 6: // eviction has to free enough bytes (v1): two victims for one newcomer
+		c := big
+		c.MaxTxsBytes = 3
+		return c, al, okTable([]int64{1, 1, 3, 1, 2}), []C12Op{chk(0), chk(1), chk(2), {Kind: "reaptxs", N: -1}, chk(3), chk(4),
+			{Kind: "reapbg", B: 5, G: -1}}, "directed-eviction-bytes"
 	default: // eviction by priority (v1); for v0 the same ops show isFull
 		c := big
 		c.Size = 2
@@ -403,11 +414,12 @@ func c12Directed(which int, v1 bool) (C12Cfg, [][]byte, [][]C12Verdict, []C12Op,
 	}
 }
 
-const C12NDirected = 7
+const C12NDirected = 8
 
 // C12History runs one history against a fresh mempool and returns the Coq case.
 // ok=false: the history must be skipped (v1 arrival stamps not strictly increasing).
-func C12History(r *Rand, v1 bool, directed int, mk C12Maker) (term, descr, kind string, nontrivial, ok bool) {
+func C12History(r *Rand, v1 bool, directed int, mk C12Maker, events map[string]int) (term, descr, kind string, nontrivial, ok bool) {
+	ev := map[string]int{}
 	var cfg C12Cfg
 	var ops []C12Op
 	sc := &C12Script{}
@@ -515,6 +527,14 @@ func C12History(r *Rand, v1 bool, directed int, mk C12Maker) (term, descr, kind 
 					clock++
 				}
 				xop = App("XCheck", c12n(op.Tx), c12n(op.Peer), c12v(v), c12n(e), B(asked))
+				ev[fmt.Sprintf("checktx-err%d", e)]++
+				if asked {
+					for _, pe := range cur.pool {
+						if int(pe[0]) == op.Tx {
+							ev["checktx-live-tx-reaches-app-again"]++
+						}
+					}
+				}
 				line = fmt.Sprintf("CheckTx(tx%d,peer%d)", op.Tx, op.Peer)
 				if asked {
 					line += fmt.Sprintf(" app{code:%d gas:%d prio:%d sender:%q}", v.Code, v.Gas, v.Prio, C12SenderName(v.Sender))
@@ -573,6 +593,26 @@ func C12History(r *Rand, v1 bool, directed int, mk C12Maker) (term, descr, kind 
 		if !stampsOK {
 			return "", "", kind, false, false
 		}
+		ev["op-"+op.Kind]++
+		switch op.Kind {
+		case "check":
+			if len(after.pool) > len(cur.pool) {
+				ev["checktx-admitted"]++
+			}
+			for _, pe := range cur.pool {
+				found := false
+				for _, qe := range after.pool {
+					found = found || qe[0] == pe[0]
+				}
+				if !found {
+					ev["checktx-evicted"]++
+				}
+			}
+		case "update":
+			if len(cur.pool)-len(after.pool) > 0 {
+				ev["update-removed-some"]++
+			}
+		}
 		steps = append(steps, Tup(xop, after.term()))
 		fmt.Fprintf(&sb, " %d:%s -> %s;", i, line, after.short())
 		if len(after.pool) >= 2 {
@@ -589,5 +629,8 @@ func C12History(r *Rand, v1 bool, directed int, mk C12Maker) (term, descr, kind 
 		ctor = "CV1"
 	}
 	term = App(ctor, L(al), c12cfg(cfg), c12z(h0), c12optz(pre0), c12optz(post0), L(steps))
+	for k, n := range ev {
+		events[k] += n
+	}
 	return term, sb.String(), kind, nontrivial, true
 }
